@@ -7,6 +7,7 @@ import Driver.Ssbs
 import Driver.Writer
 import Driver.Static
 import Driver.Cli
+import Driver.SmBuilder
 open Lean Drv
 
 /-- dispatch on the prefix of "op" -/
@@ -22,6 +23,7 @@ def dispatch (j : Json) : R Json := do
   | "writer" => WriterD.handle op j
   | "static" => StaticD.handle op j
   | "cli" => CliD.handle op j
+  | "smb" => SmbD.handle op j
   | _ => throw s!"unknown op {op}"
 
 partial def loop (h : IO.FS.Stream) (out : IO.FS.Stream) : IO Unit := do
